@@ -283,26 +283,33 @@ def draw_inputs(rng: random.Random, nrng: np.random.Generator, probe: NeuronProb
 
 
 def neuron_runs(rng: random.Random, tier: str):
-    """the list of real executions to record: every class x lock x adaptation, several timing
-    configurations each (strict = dyadic dt / refrac_t, lax = arbitrary floats)"""
+    """the list of real executions to record: every class x lock x adaptation; for each of them all
+    four kinds of refractory period (0, below dt, a multiple of dt, more than dt and not a multiple),
+    alternating strict (dyadic dt / refrac_t) and lax (arbitrary floats) timing, and every parameter
+    recipe of the class (the last one is the self-exciting / sinking-threshold regime)"""
     runs = []
-    per = 3 if tier == "quick" else 14
+    rounds = 1 if tier == "quick" else 4
     steps = 40 if tier == "quick" else 60
     kinds = ["zero", "below", "multiple", "nonmultiple"]
     i = 0
     for cls in CLASSES:
+        nrec = len(RECIPES[cls])
         for lock in (True, False):
             for adapt in ((True, False) if cls in ADAPTIVE else (False,)):
-                for j in range(per):
-                    lax = (j % 3 == 2)
-                    D = rng.choice([1, 2, 4])
-                    R = rng.choice(r_choices(D)[kinds[i % 4]])
-                    i += 1
-                    tick = rng.choice(LAX_TICKS if lax else STRICT_TICKS)
-                    shape, batch = rng.choice(SHAPES if tier == "thorough" else SHAPES[:6])
-                    runs.append(dict(cls=cls, lock=lock, adapt=adapt, lax=lax, D=D, R=R, tick=tick, shape=list(shape),
-                                     batch=batch, recipe=rng.randrange(len(RECIPES[cls])), steps=steps,
-                                     seed=rng.randrange(1 << 30)))
+                for rnd in range(rounds):
+                    for kind in kinds:
+                        lax = (i % 3 == 2)
+                        D = rng.choice([2, 4]) if kind == "below" else rng.choice([1, 2, 4])
+                        R = rng.choice(r_choices(D)[kind])
+                        if kind == "multiple" and rnd == 0:
+                            R = 2 * D          # a window of two steps with an ordinary recipe: (not free, lt) is certain
+                        tick = rng.choice(LAX_TICKS if lax else STRICT_TICKS)
+                        shape, batch = rng.choice(SHAPES if tier == "thorough" else SHAPES[:6])
+                        # long windows get the self-exciting recipe more often: that is where it matters
+                        recipe = (nrec - 1) if kind == "nonmultiple" else i % (nrec - 1)
+                        i += 1
+                        runs.append(dict(cls=cls, lock=lock, adapt=adapt, lax=lax, D=D, R=R, tick=tick, shape=list(shape),
+                                         batch=batch, recipe=recipe, steps=steps, kind=kind, seed=rng.randrange(1 << 30)))
     return runs
 
 
@@ -321,14 +328,15 @@ def record_run(run: dict, mutate=None):
     raws = [[] for _ in range(probe.E)]
     inputs = []
     ms = {}
+    pokes = []
     for t in range(run["steps"]):
-        x = run["inputs"][t] if "inputs" in run else draw_inputs(rng, nrng, probe, ms)
-        if not torch.is_tensor(x):
-            x = torch.tensor(x, dtype=torch.float32).reshape((probe.batch,) + probe.shape)
+        # between steps: the public voltage setter moves some still-refractory elements to / above threshold
+        pk = probe.poke_refractory(rng) if t > 0 else []
+        x = draw_inputs(rng, nrng, probe, ms)
         step = probe.step(x)
         if step is None:
             break
-        inputs.append(x.reshape(-1).tolist())
+        inputs.append({"x": x.reshape(-1).tolist(), "voltage_set_before": pk})
         for e, ev in enumerate(step):
             raws[e].append(ev.pop("raw"))
             evs[e].append(ev)
@@ -437,7 +445,47 @@ def record_runs(chk: Check, runs):
             if spikes:
                 pat = "".join("1" if ev["ret"]["spk"] else "0" for ev in t["ev"])
                 chk.nontrivial.add((run["cls"], run["lock"], run["adapt"], run["D"], run["R"], run["lax"], pat))
+            _cover(chk, run, t, raws[e])
     return traces, metas, nan_runs
+
+
+COVER_REQUIRED = ["notfree_ge_lock", "notfree_ge_nolock", "notfree_lt_lock", "notfree_lt_nolock", "free_near",
+                  "free_ge", "free_lt", "spike_at_first_permitted_step", "period_zero", "period_below_dt",
+                  "period_multiple", "period_nonmultiple", "lax_runs", "strict_runs"]
+
+
+def _cover(chk: Check, run, trace, raws):
+    """per class: which cases of the contract the recorded executions actually reached"""
+    cov = chk.extra.setdefault("case_coverage", {})
+    c = cov.setdefault(run["cls"], {k: 0 for k in COVER_REQUIRED})
+    lk = "lock" if run["lock"] else "nolock"
+    W = max(1, -(-run["R"] // run["D"]))
+    last = None
+    for j, (ev, raw) in enumerate(zip(trace["ev"], raws)):
+        free, eff, cat = raw["free"], raw["effcat"], ev["op"]["cat"]
+        if free is False and eff in ("ge", "lt"):
+            c[f"notfree_{eff}_{lk}"] += 1
+        elif free is True:
+            c[f"free_{cat}"] += 1
+        if ev["ret"]["spk"]:
+            if last is not None and j - last == W:
+                c["spike_at_first_permitted_step"] += 1
+            last = j
+    if trace is not None and raws is not None and run.get("_counted") is None:
+        run["_counted"] = True
+        c["period_" + {"zero": "zero", "below": "below_dt", "multiple": "multiple", "nonmultiple": "nonmultiple"}[run["kind"]]] += 1
+        c["lax_runs" if run["lax"] else "strict_runs"] += 1
+
+
+def require_case_coverage(chk: Check):
+    """vacuity guard: every class must have reached every case (in particular a REFRACTORY element
+    whose voltage is at / above its threshold, with and without voltage locking)"""
+    cov = chk.extra.get("case_coverage", {})
+    missing = [(cls, k) for cls in CLASSES for k in COVER_REQUIRED if not cov.get(cls, {}).get(k)]
+    if missing:
+        raise MachineryFailure(f"trace drivers did not exercise: {missing}")
+    chk.note("case coverage: every class reached (not free, ge), (not free, lt) with lock on/off, (free, near), "
+             "a spike at the first permitted step, and all four kinds of refractory period")
 
 
 def record_and_validate(chk: Check, recorded, site: str):
